@@ -199,6 +199,10 @@ def run_tlc_once(module, cfg, *, workers=None, simulate=None, depth=None, timeou
         jopts += java_opts
     env["JAVA_TOOL_OPTIONS"] = " ".join(jopts)
     t0 = time.time()
+    # the thorough tier is fitted to an idle machine; under load the same run takes 3-5 times longer, and a
+    # time-out is machinery trouble (exit 2), never a verdict: leave room
+    if os.environ.get("VERIF_TIER") == "thorough":
+        timeout = int(timeout * 4)
     try:
         r = subprocess.run(["timeout", str(timeout)] + cmd, cwd=d, env=env,
                            capture_output=True, text=True)
